@@ -1,4 +1,4 @@
-(* Props/C05Known.v - refutations: for each flag claimed in Actual/ConfigActual.v a concrete case on which the
+(* Props/C05Known.v - refutations (and regressions for repaired defects): for each flag claimed in Actual/ConfigActual.v a concrete case on which the
    faithful model differs from the specification while the ideal model meets it (closed by vm_compute).
    The same cases are in corpus/C05 and are replayed on the implementation on every run. *)
 From TL Require Import Lib.Base Lib.GenTypes Model.ConfigTypes Gen.ConfigGen Model.Config Model.ConfigRun Actual.ConfigActual.
@@ -50,14 +50,17 @@ Proof. vm_compute. split; [discriminate|reflexivity]. Qed.
 Theorem C05_section_not_read_lazy_ignores_refuted : run config_actual w_section_not_read_lazy_ignores <> spec w_section_not_read_lazy_ignores /\ run ideal w_section_not_read_lazy_ignores = spec w_section_not_read_lazy_ignores.
 Proof. vm_compute. split; [discriminate|reflexivity]. Qed.
 
-Theorem C05_section_not_read_unwrap_abuse_refuted : run config_actual w_section_not_read_unwrap_abuse <> spec w_section_not_read_unwrap_abuse /\ run ideal w_section_not_read_unwrap_abuse = spec w_section_not_read_unwrap_abuse.
-Proof. vm_compute. split; [discriminate|reflexivity]. Qed.
+(* repaired by fix commit cc0b16c: the old witness now meets the specification under the claimed vector *)
+Example C05_section_not_read_unwrap_abuse_regression : run config_actual w_section_not_read_unwrap_abuse = spec w_section_not_read_unwrap_abuse.
+Proof. vm_compute. reflexivity. Qed.
 
-Theorem C05_section_not_read_clone_abuse_refuted : run config_actual w_section_not_read_clone_abuse <> spec w_section_not_read_clone_abuse /\ run ideal w_section_not_read_clone_abuse = spec w_section_not_read_clone_abuse.
-Proof. vm_compute. split; [discriminate|reflexivity]. Qed.
+(* repaired by fix commit cc0b16c: the old witness now meets the specification under the claimed vector *)
+Example C05_section_not_read_clone_abuse_regression : run config_actual w_section_not_read_clone_abuse = spec w_section_not_read_clone_abuse.
+Proof. vm_compute. reflexivity. Qed.
 
-Theorem C05_section_not_read_blocking_async_refuted : run config_actual w_section_not_read_blocking_async <> spec w_section_not_read_blocking_async /\ run ideal w_section_not_read_blocking_async = spec w_section_not_read_blocking_async.
-Proof. vm_compute. split; [discriminate|reflexivity]. Qed.
+(* repaired by fix commit cc0b16c: the old witness now meets the specification under the claimed vector *)
+Example C05_section_not_read_blocking_async_regression : run config_actual w_section_not_read_blocking_async = spec w_section_not_read_blocking_async.
+Proof. vm_compute. reflexivity. Qed.
 
 Theorem C05_enabled_option_missing_file_header_refuted : run config_actual w_enabled_option_missing_file_header <> spec w_enabled_option_missing_file_header /\ run ideal w_enabled_option_missing_file_header = spec w_enabled_option_missing_file_header.
 Proof. vm_compute. split; [discriminate|reflexivity]. Qed.
@@ -68,14 +71,16 @@ Proof. vm_compute. split; [discriminate|reflexivity]. Qed.
 Theorem C05_language_override_ignored_dry_refuted : run config_actual w_language_override_ignored_dry <> spec w_language_override_ignored_dry /\ run ideal w_language_override_ignored_dry = spec w_language_override_ignored_dry.
 Proof. vm_compute. split; [discriminate|reflexivity]. Qed.
 
-Theorem C05_cli_override_skips_language_sections_nesting_refuted : run config_actual w_cli_override_skips_language_sections_nesting <> spec w_cli_override_skips_language_sections_nesting /\ run ideal w_cli_override_skips_language_sections_nesting = spec w_cli_override_skips_language_sections_nesting.
-Proof. vm_compute. split; [discriminate|reflexivity]. Qed.
+(* repaired by fix commit 15f0ac4: the old witness now meets the specification under the claimed vector *)
+Example C05_cli_override_skips_language_sections_nesting_regression : run config_actual w_cli_override_skips_language_sections_nesting = spec w_cli_override_skips_language_sections_nesting.
+Proof. vm_compute. reflexivity. Qed.
 
 Theorem C05_cli_override_skips_language_sections_srp_refuted : run config_actual w_cli_override_skips_language_sections_srp <> spec w_cli_override_skips_language_sections_srp /\ run ideal w_cli_override_skips_language_sections_srp = spec w_cli_override_skips_language_sections_srp.
 Proof. vm_compute. split; [discriminate|reflexivity]. Qed.
 
-Theorem C05_repo_ignore_not_loaded_json_refuted : run config_actual w_repo_ignore_not_loaded_json <> spec w_repo_ignore_not_loaded_json /\ run ideal w_repo_ignore_not_loaded_json = spec w_repo_ignore_not_loaded_json.
-Proof. vm_compute. split; [discriminate|reflexivity]. Qed.
+(* repaired by fix commit bbae54e: the old witness now meets the specification under the claimed vector *)
+Example C05_repo_ignore_not_loaded_json_regression : run config_actual w_repo_ignore_not_loaded_json = spec w_repo_ignore_not_loaded_json.
+Proof. vm_compute. reflexivity. Qed.
 
 Theorem C05_repo_ignore_not_loaded_pyproject_refuted : run config_actual w_repo_ignore_not_loaded_pyproject <> spec w_repo_ignore_not_loaded_pyproject /\ run ideal w_repo_ignore_not_loaded_pyproject = spec w_repo_ignore_not_loaded_pyproject.
 Proof. vm_compute. split; [discriminate|reflexivity]. Qed.
@@ -89,8 +94,9 @@ Proof. vm_compute. split; [discriminate|reflexivity]. Qed.
 Theorem C05_dry_config_option_merges_section_only_refuted : run config_actual w_dry_config_option_merges_section_only <> spec w_dry_config_option_merges_section_only /\ run ideal w_dry_config_option_merges_section_only = spec w_dry_config_option_merges_section_only.
 Proof. vm_compute. split; [discriminate|reflexivity]. Qed.
 
-Theorem C05_pyproject_unparsable_swallowed_refuted : run config_actual w_pyproject_unparsable_swallowed <> spec w_pyproject_unparsable_swallowed /\ run ideal w_pyproject_unparsable_swallowed = spec w_pyproject_unparsable_swallowed.
-Proof. vm_compute. split; [discriminate|reflexivity]. Qed.
+(* repaired by fix commit 0514ca9: the old witness now meets the specification under the claimed vector *)
+Example C05_pyproject_unparsable_swallowed_regression : run config_actual w_pyproject_unparsable_swallowed = spec w_pyproject_unparsable_swallowed.
+Proof. vm_compute. reflexivity. Qed.
 
 Theorem C05_wrong_type_swallowed_refuted : run config_actual w_wrong_type_swallowed <> spec w_wrong_type_swallowed /\ run ideal w_wrong_type_swallowed = spec w_wrong_type_swallowed.
 Proof. vm_compute. split; [discriminate|reflexivity]. Qed.
